@@ -15,6 +15,8 @@ CLAIMED["C09"] = ("DESIGN.md#c09", "Lean theorems over the exact-microsecond mod
          "Lean 4 proof of the integer model + hand model tied by differential run (float bridge stated as assumption)")
 CLAIMED["C13"] = ("DESIGN.md#c13", "Lean theorems over a model of both duration parsers (Rust state machine, Python regex groups + per-group code) on token lists of arbitrary digit strings: exact value rounded to the nearest microsecond, backends agree on every well-formed string, order/fraction/size rejections, interval assembly over abstract add/sub; correspondence on ~10^5 strings x 2 backends; oracle = fractions.Fraction",
          "Lean 4 proof over parser models + differential correspondence run")
+CLAIMED["C18"] = ("DESIGN.md#c18", "Locale dictionaries, templates and CLDR plural/ordinal lambdas of all 27 locales are regenerated into Lean on every run; theorems: plural/ordinal ranges for all n, totality of every (locale, unit, class, flag) lookup by kernel evaluation, format_diff/in_words/locale tokens total and brace-free for all inputs, unit selection, rounding, direction markers, within-one-unit; correspondence on ~5x10^5 ops x 2 backends; oracle re-states phrase/direction/count independently",
+         "Lean 4 proof over regenerated locale data + hand model of DifferenceFormatter, differential correspondence run")
 NA = {}
 def main():
     props = [json.loads(l) for l in open(os.path.join(ROOT, "properties.jsonl"))]
